@@ -2,6 +2,7 @@
 import numpy as np
 import core
 from core import OracleResult
+import cfg1d
 import impl, riemann_exact
 from layers.fvm1d import layer_rhs1d
 from layers.kern import layer_flux_euler
@@ -35,6 +36,7 @@ def conv_error(num, integ, n, a, k, phase, cfl, x0=0.0, amp=1.0, meshcls=None):
     else:
         msh = impl.mesh.unimesh(ncell=n, length=1.0, x0=x0)
     mod = impl.convection.model(a)
+    num = cfg1d.used_scheme(num, msh)      # the scheme object has served another mesh with the same ncell / origin / length before
     disc = impl.modeldisc.fvm(mod, msh, num)
     # cell averages of sin(2 pi k x + phase)
     xf = msh.xf
@@ -115,8 +117,9 @@ def oracle(ctx, seeds=None):
             if not ok:
                 res.fail('order/%s:raised' % name, errs, rp); continue
             obs = float(np.log2(errs[1] / errs[2])) if errs[2] > 0 else 9.9
-            if not (errs[2] < errs[1] < errs[0]) or obs < 0.7:
-                res.fail('order/%s:%smesh' % (name, meshcls), "on a %smesh the L1 errors %r do not decrease at order >= 0.7 (observed %.2f)" % (meshcls, errs, obs), rp)
+            res.stats['order_%s_%s' % (meshcls, name)] = round(obs, 2)
+            if not (errs[2] < errs[1] < errs[0]) or obs < (0.7 if name == 'extrapol1' else 1.5):
+                res.fail('order/%s:%smesh' % (name, meshcls), "on a %smesh the L1 errors %r do not decrease at the design order minus slack (observed order %.2f)" % (meshcls, errs, obs), rp)
     # ---- Riemann problems: L1 error decreases under refinement, against the independent exact solver
     SOD_L, SOD_R = (1.0, 0.0, 1.0), (0.125, 0.0, 0.1)
     canon = []
